@@ -47,7 +47,7 @@ Section Sort.
     match l with [] => [] | a :: r => insert a (isort r) end.
 End Sort.
 
-(* ---- per path: lat_path (sources mapped back, sorted) and lat_sum (summed in path order) ---- *)
+(* ---- per path: lat_path (sources mapped back, sorted) and lat_sum (the latencies of the SORTED lat_path, summed left to right) ---- *)
 Definition mapback (off : Z) (e : edge) : edge := (if off <=? fst e then fst e - off else fst e, snd e).
 Definition lat_path (off : Z) (p : path) : list edge := isort (leb_of cmp_edge) (map (mapback off) p).
 Definition lat_sum (p : path) : Z := fold_left (fun acc e => acc + snd e) p 0.
@@ -60,7 +60,7 @@ Fixpoint dedup (off : Z) (seen : list (list edge)) (l : list path) : list item :
   | p :: r =>
       let lp := lat_path off p in
       if mem_lp lp seen then dedup off seen r
-      else (lat_sum p, lp) :: dedup off (lp :: seen) r
+      else (lat_sum lp, lp) :: dedup off (lp :: seen) r
   end.
 
 (* ---- loopcarried_deps.sort(reverse=True) ---- *)
